@@ -53,7 +53,7 @@ def run_c06(chk):
     rng = chk.rng
     drv = common.Driver()
     bad, fails = [], []
-    n = chk.n(900, 4000)
+    n = chk.n(900, 16000)
     nlex = 0
     for it in range(n):
         method = rng.choice(METHODS) if it % 8 == 0 else rng.choice(METHODS[:3])
@@ -168,7 +168,7 @@ def cognate_threshold_pairs(chk):
     """C10, cognate clause: LexStat.cluster at t1 <= t2 with the same method/linkage gives nested sets"""
     rng = chk.rng
     fails = []
-    n = chk.n(500, 3000)
+    n = chk.n(500, 12000)
     for it in range(n):
         method = rng.choice(METHODS) if it % 10 == 0 else rng.choice(METHODS[:3])
         try:
